@@ -7,11 +7,11 @@ CONSTANTS
   TTLs <- TTLsQ
   AllowBig = TRUE
   AllowImport = TRUE
-  PersistIns = "sync"
+  PersistIns = "none"
   PersistRem = "sync"
-  CommitFlush = TRUE
+  CommitFlush = FALSE
   OneBatch = TRUE
   CasFirst = TRUE
   Gen = FALSE
-INVARIANT SomeTornBatchDropped
+INVARIANT INV_Durable
 CHECK_DEADLOCK FALSE
